@@ -1,5 +1,6 @@
 import Mathlib.Algebra.Order.Field.Basic
 import Mathlib.Algebra.BigOperators.Group.Finset.Basic
+import Mathlib.Algebra.BigOperators.Ring.Finset
 import Mathlib.Algebra.Order.AbsoluteValue.Basic
 import Mathlib.Tactic.Ring
 import Mathlib.Tactic.FieldSimp
@@ -281,3 +282,255 @@ theorem get2_upInner {n nt : Nat} (m : Array K) (rb kup : Nat) (hsz : n*nt ≤ m
   rw [hg i j hj]
   have : nt - (nt - rb) = rb := by omega
   rw [this]
+
+/-! ### systems of equations and elementary row operations (on the 2-D view) -/
+
+/-- the 2-D view of a flat augmented matrix -/
+def view (nt : Nat) (m : Array K) : Nat → Nat → K := get2 nt m
+
+/-- `x` solves the equations of the augmented matrix `M` whose right-hand side is column `c` -/
+def Sol (n : Nat) (M : Nat → Nat → K) (x : Nat → K) (c : Nat) : Prop :=
+  ∀ i, i < n → ∑ j ∈ Finset.range n, M i j * x j = M i c
+
+/-- entries of the columns `< k` below the diagonal vanish -/
+def LowerZero (n : Nat) (M : Nat → Nat → K) (k : Nat) : Prop :=
+  ∀ i j, i < n → j < k → j < i → M i j = 0
+
+/-- `M'` arises from `M` by elementary row operations on the first `n` rows, `nt` columns -/
+inductive RowOps (n nt : Nat) (M : Nat → Nat → K) : (Nat → Nat → K) → Prop
+  | refl (M' : Nat → Nat → K) :
+      (∀ i j, i < n → j < nt → M' i j = M i j) → RowOps n nt M M'
+  | axpy (M' M'' : Nat → Nat → K) (rr k : Nat) (cc : K) :
+      RowOps n nt M M' → rr < n → k < n → rr ≠ k →
+      (∀ i j, i < n → j < nt → M'' i j = if i = rr then M' rr j + cc * M' k j else M' i j) →
+      RowOps n nt M M''
+  | swap (M' M'' : Nat → Nat → K) (r1 r2 : Nat) :
+      RowOps n nt M M' → r1 < n → r2 < n →
+      (∀ i j, i < n → j < nt → M'' i j =
+        if i = r1 then M' r2 j else if i = r2 then M' r1 j else M' i j) →
+      RowOps n nt M M''
+  | scale (M' M'' : Nat → Nat → K) (rb : Nat) (p : K) :
+      RowOps n nt M M' → rb < n → p ≠ 0 →
+      (∀ i j, i < n → j < nt → M'' i j = if i = rb then M' rb j / p else M' i j) →
+      RowOps n nt M M''
+
+/-- replacing the target by a matrix that agrees with it on the `n × nt` window -/
+theorem RowOps.congr {n nt : Nat} {M M' M'' : Nat → Nat → K} (h1 : RowOps n nt M M')
+    (h : ∀ i j, i < n → j < nt → M'' i j = M' i j) : RowOps n nt M M'' := by
+  cases h1 with
+  | refl _ h0 => exact RowOps.refl _ (fun i j hi hj => by rw [h i j hi hj, h0 i j hi hj])
+  | axpy A1 _ rr k cc h0 hr hk hne he =>
+    exact RowOps.axpy A1 _ rr k cc h0 hr hk hne
+      (fun i j hi hj => by rw [h i j hi hj, he i j hi hj])
+  | swap A1 _ r1 r2 h0 hr1 hr2 he =>
+    exact RowOps.swap A1 _ r1 r2 h0 hr1 hr2
+      (fun i j hi hj => by rw [h i j hi hj, he i j hi hj])
+  | scale A1 _ rb p h0 hr hp he =>
+    exact RowOps.scale A1 _ rb p h0 hr hp
+      (fun i j hi hj => by rw [h i j hi hj, he i j hi hj])
+
+theorem RowOps.trans {n nt : Nat} {M M' M'' : Nat → Nat → K}
+    (h1 : RowOps n nt M M') (h2 : RowOps n nt M' M'') : RowOps n nt M M'' := by
+  induction h2 with
+  | refl B h => exact h1.congr h
+  | axpy B C rr k cc _ hr hk hne he ih => exact RowOps.axpy _ _ rr k cc ih hr hk hne he
+  | swap B C r1 r2 _ hr1 hr2 he ih => exact RowOps.swap _ _ r1 r2 ih hr1 hr2 he
+  | scale B C rb p _ hr hp he ih => exact RowOps.scale _ _ rb p ih hr hp he
+
+/-- every solution of the transformed system solves the original one -/
+theorem RowOps.sol {n nt : Nat} (hn : n ≤ nt) {M M' : Nat → Nat → K} (h : RowOps n nt M M')
+    (x : Nat → K) (c : Nat) (hc : c < nt) (hx : Sol n M' x c) : Sol n M x c := by
+  induction h with
+  | refl B h =>
+    intro i hi
+    rw [← h i c hi hc, ← hx i hi]
+    exact Finset.sum_congr rfl (fun j hj => by
+      rw [h i j hi (lt_of_lt_of_le (Finset.mem_range.mp hj) hn)])
+  | axpy B C rr k cc _ hr hk hne he ih =>
+    apply ih
+    intro i hi
+    have hrowk : ∑ j ∈ Finset.range n, B k j * x j = B k c := by
+      have := hx k hk
+      rw [he k c hk hc, if_neg (Ne.symm hne)] at this
+      rw [← this]
+      exact Finset.sum_congr rfl (fun j hj => by
+        rw [he k j hk (lt_of_lt_of_le (Finset.mem_range.mp hj) hn), if_neg (Ne.symm hne)])
+    by_cases hir : i = rr
+    · subst hir
+      have h1 := hx i hi
+      rw [he i c hi hc, if_pos rfl] at h1
+      have h2 : ∑ j ∈ Finset.range n, C i j * x j =
+          ∑ j ∈ Finset.range n, B i j * x j + cc * ∑ j ∈ Finset.range n, B k j * x j := by
+        rw [Finset.mul_sum, ← Finset.sum_add_distrib]
+        exact Finset.sum_congr rfl (fun j hj => by
+          rw [he i j hi (lt_of_lt_of_le (Finset.mem_range.mp hj) hn), if_pos rfl]; ring)
+      rw [h2, hrowk] at h1
+      linarith
+    · have h1 := hx i hi
+      rw [he i c hi hc, if_neg hir] at h1
+      rw [← h1]
+      exact Finset.sum_congr rfl (fun j hj => by
+        rw [he i j hi (lt_of_lt_of_le (Finset.mem_range.mp hj) hn), if_neg hir])
+  | swap B C r1 r2 _ hr1 hr2 he ih =>
+    apply ih
+    intro i hi
+    -- row i of B is some row of C
+    have key : ∀ a b, a < n → b < n → (∀ j, j < nt → C a j = B b j) →
+        ∑ j ∈ Finset.range n, B b j * x j = B b c := by
+      intro a b ha hb hab
+      have := hx a ha
+      rw [hab c hc] at this
+      rw [← this]
+      exact Finset.sum_congr rfl (fun j hj => by
+        rw [hab j (lt_of_lt_of_le (Finset.mem_range.mp hj) hn)])
+    by_cases h1 : i = r1
+    · subst h1
+      by_cases h2 : r2 = i
+      · subst h2
+        exact key r2 r2 hi hi (fun j hj => by rw [he r2 j hi hj, if_pos rfl])
+      · exact key r2 i hr2 hi (fun j hj => by
+          rw [he r2 j hr2 hj, if_neg h2, if_pos rfl])
+    · by_cases h2 : i = r2
+      · subst h2
+        exact key r1 i hr1 hi (fun j hj => by rw [he r1 j hr1 hj, if_pos rfl])
+      · exact key i i hi hi (fun j hj => by rw [he i j hi hj, if_neg h1, if_neg h2])
+  | scale B C rb p _ hr hp he ih =>
+    apply ih
+    intro i hi
+    by_cases hir : i = rb
+    · subst hir
+      have h1 := hx i hi
+      rw [he i c hi hc, if_pos rfl] at h1
+      have h2 : ∑ j ∈ Finset.range n, C i j * x j =
+          p⁻¹ * (∑ j ∈ Finset.range n, B i j * x j) := by
+        rw [Finset.mul_sum]
+        exact Finset.sum_congr rfl (fun j hj => by
+          rw [he i j hi (lt_of_lt_of_le (Finset.mem_range.mp hj) hn), if_pos rfl]; ring)
+      rw [h2] at h1
+      field_simp at h1
+      linarith
+    · have h1 := hx i hi
+      rw [he i c hi hc, if_neg hir] at h1
+      rw [← h1]
+      exact Finset.sum_congr rfl (fun j hj => by
+        rw [he i j hi (lt_of_lt_of_le (Finset.mem_range.mp hj) hn), if_neg hir])
+
+/-! ### forward elimination with partial pivoting -/
+
+theorem absv_eq_abs (x : K) : absv x = |x| := by
+  unfold absv
+  by_cases h : x < 0
+  · rw [if_pos h, abs_of_neg h]
+  · rw [if_neg h, abs_of_nonneg (not_lt.mp h)]
+
+theorem pivot_fold {nt : Nat} (m : Array K) (k t : Nat) :
+    let b := (List.range' (k+1) t).foldl (pivotStep m nt k) k
+    k ≤ b ∧ b < k + 1 + t ∧ ∀ i, k ≤ i → i < k + 1 + t → |get2 nt m i k| ≤ |get2 nt m b k| := by
+  induction t with
+  | zero =>
+    refine ⟨le_refl _, by simp, ?_⟩
+    intro i h1 h2
+    have : i = k := by omega
+    subst this; simp
+  | succ t ih =>
+    obtain ⟨h1, h2, h3⟩ := ih
+    rw [List.range'_concat, List.foldl_append]
+    simp only [List.foldl_cons, List.foldl_nil, Nat.one_mul]
+    generalize (List.range' (k+1) t).foldl (pivotStep m nt k) k = b at h1 h2 h3
+    unfold pivotStep
+    rw [absv_eq_abs, absv_eq_abs]
+    show let b' := if |get2 nt m b k| < |get2 nt m (k+1+t) k| then k+1+t else b; _
+    intro b'
+    by_cases hlt : |get2 nt m b k| < |get2 nt m (k+1+t) k|
+    · have hb' : b' = k+1+t := if_pos hlt
+      rw [hb']
+      refine ⟨by omega, by omega, ?_⟩
+      intro i hi1 hi2
+      by_cases hi : i = k+1+t
+      · rw [hi]
+      · exact le_trans (h3 i hi1 (by omega)) (le_of_lt hlt)
+    · have hb' : b' = b := if_neg hlt
+      rw [hb']
+      refine ⟨h1, by omega, ?_⟩
+      intro i hi1 hi2
+      by_cases hi : i = k+1+t
+      · rw [hi]; exact not_lt.mp hlt
+      · exact h3 i hi1 (by omega)
+
+/-- the pivot search returns a row `k ≤ b < n` whose entry in column `k` is largest in
+absolute value among the rows `k..n-1` -/
+theorem pivotRow_spec {n nt : Nat} (m : Array K) (k : Nat) (hk : k < n) :
+    k ≤ pivotRow m nt n k ∧ pivotRow m nt n k < n ∧
+    ∀ i, k ≤ i → i < n → |get2 nt m i k| ≤ |get2 nt m (pivotRow m nt n k) k| := by
+  obtain ⟨h1, h2, h3⟩ := pivot_fold (nt := nt) m k (n - (k+1))
+  refine ⟨h1, by unfold pivotRow; omega, ?_⟩
+  intro i hi1 hi2
+  exact h3 i hi1 (by omega)
+
+theorem elim_fold {n nt : Nat} (tol : K) (htol : 0 < tol) (hn : n ≤ nt) (m : Array K) (k : Nat)
+    (hsz : n*nt ≤ m.size) (hk : k < n) (hlz : LowerZero n (view nt m) k)
+    (t : Nat) (ht : t ≤ n - (k+1)) :
+    match (List.range' (k+1) t).foldl (elimStep tol nt nt k) (some m) with
+    | none => 0 < t ∧ |view nt m k k| < tol
+    | some m' => m'.size = m.size ∧ RowOps n nt (view nt m) (view nt m') ∧
+        (∀ i j, i ≤ k → j < nt → view nt m' i j = view nt m i j) ∧
+        LowerZero n (view nt m') k ∧ (∀ i, k < i → i < k+1+t → view nt m' i k = 0) ∧
+        (0 < t → ¬ |view nt m k k| < tol) := by
+  induction t with
+  | zero =>
+    simp only [List.range'_zero, List.foldl_nil]
+    refine ⟨rfl, RowOps.refl _ (fun _ _ _ _ => rfl), fun _ _ _ _ => rfl, hlz, ?_, ?_⟩
+    · intro i h1 h2; omega
+    · intro h; omega
+  | succ t ih =>
+    have ih := ih (by omega)
+    rw [List.range'_concat, List.foldl_append]
+    simp only [List.foldl_cons, List.foldl_nil, Nat.one_mul]
+    cases hprev : (List.range' (k+1) t).foldl (elimStep tol nt nt k) (some m) with
+    | none =>
+      rw [hprev] at ih
+      simp only [elimStep]
+      exact ⟨by omega, ih.2⟩
+    | some m' =>
+      rw [hprev] at ih
+      obtain ⟨hs, hro, hrows, hlz', hcol, hpiv⟩ := ih
+      have hrr : k + 1 + t < n := by omega
+      have hknt : k < nt := by omega
+      have hdk : get2 nt m' k k = view nt m k k := hrows k k (le_refl _) hknt
+      simp only [elimStep]
+      show (match (if absv (get2 nt m' k k) < tol then none else
+        some (axpyRow nt nt (k+1+t) k (-(get2 nt m' (k+1+t) k) / get2 nt m' k k) m')) with
+        | none => _ | some m'' => _)
+      rw [absv_eq_abs, hdk]
+      by_cases hd : |view nt m k k| < tol
+      · rw [if_pos hd]
+        exact ⟨by omega, hd⟩
+      · rw [if_neg hd]
+        have hdne : view nt m k k ≠ 0 := by
+          intro h0; rw [h0, abs_zero] at hd; exact hd htol
+        obtain ⟨hs2, hg2⟩ := get2_axpyRow (n := n) m' (k+1+t) k
+          (-(get2 nt m' (k+1+t) k) / view nt m k k) (by rw [hs]; exact hsz) hrr (by omega)
+        refine ⟨by rw [hs2, hs], ?_, ?_, ?_, ?_, fun _ => hd⟩
+        · exact RowOps.axpy _ _ (k+1+t) k _ hro hrr hk (by omega)
+            (fun i j hi hj => hg2 i j hj)
+        · intro i j hi hj
+          show get2 nt _ i j = _
+          rw [hg2 i j hj, if_neg (by omega)]
+          exact hrows i j hi hj
+        · intro i j hi hj hji
+          show get2 nt _ i j = 0
+          rw [hg2 i j (by omega)]
+          by_cases hir : i = k+1+t
+          · rw [if_pos hir]
+            have e1 : get2 nt m' (k+1+t) j = 0 := hlz' (k+1+t) j hrr hj (by omega)
+            have e2 : get2 nt m' k j = 0 := hlz' k j hk hj hj
+            rw [e1, e2]; ring
+          · rw [if_neg hir]; exact hlz' i j hi hj hji
+        · intro i hi1 hi2
+          show get2 nt _ i k = 0
+          rw [hg2 i k hknt]
+          by_cases hir : i = k+1+t
+          · rw [if_pos hir, hdk]
+            field_simp
+            ring
+          · rw [if_neg hir]; exact hcol i hi1 (by omega)
